@@ -1548,6 +1548,12 @@ def _make_gin_wrapper(fn, fn_or_cls, name, selector, allowlist, denylist):
     for arg_name in arg_names:
       if arg_name not in required_arg_names:
         new_kwargs.pop(arg_name, None)
+    # The same goes for arguments the caller passed by keyword: drop their
+    # bindings now, so that references they may contain aren't evaluated (i.e.,
+    # called) below only for the result to be overridden by the caller's value.
+    for kwarg in kwargs:
+      if kwarg not in caller_required_kwargs:
+        new_kwargs.pop(kwarg, None)
 
     # Get default values for configurable parameters.
     operative_parameter_values = initial_configurable_defaults.copy()
